@@ -880,10 +880,32 @@ def so_loop_inv(s):
     B = lift(s.batcher.fields["batch_size"])
     done = zmin(lift(s.k) * B, lift(g.N))
     st = s.shifted_tensor_3d
-    return [
+    out = []
+    sg = s.get("shifted_grid")
+    if sg is not None and s.get("batch_idx") is not None:
+        # stepping stones (only after the body has run): facts about the sampling grid of the current batch at p*, (y*, x*)
+        kB = z3.simplify(lift(s.k) - 1) * B  # the clauses are evaluated for k+1 after iteration k
+        b = g.ps.t - kB
+        inb = AND(b >= 0, b < lift(s.batch_idx.sym_len()))
+        z0, z1 = z3.IntVal(0), z3.IntVal(1)
+        out += [
+            ("aux:wrapped-row-coordinate-of-p*-is-(y*+s_row)-mod-H", implies(inb, lift(sg.fn(b, g.ys.t, g.xs.t, z0)) == z3.ToReal((g.ys.t + g.sy.t) % g.H.t))),
+            ("aux:wrapped-col-coordinate-of-p*-is-(x*+s_col)-mod-W", implies(inb, lift(sg.fn(b, g.ys.t, g.xs.t, z1)) == z3.ToReal((g.xs.t + g.sx.t) % g.W.t))),
+        ]
+        gr = s.get("grid")
+        if gr is not None:
+            # align_corners=True un-normalisation ((g+1)/2)*(size-1) of the normalised grid gives back the wrapped pixel coordinate
+            ux = (lift(gr.fn(b, g.ys.t, g.xs.t, z0)) + 1) / 2 * z3.ToReal(g.W.t - 1)
+            uy = (lift(gr.fn(b, g.ys.t, g.xs.t, z1)) + 1) / 2 * z3.ToReal(g.H.t - 1)
+            out += [
+                ("aux:un-normalised-x-of-p*-is-the-wrapped-col-coordinate", implies(inb, ux == z3.ToReal((g.xs.t + g.sx.t) % g.W.t))),
+                ("aux:un-normalised-y-of-p*-is-the-wrapped-row-coordinate", implies(inb, uy == z3.ToReal((g.ys.t + g.sy.t) % g.H.t))),
+            ]
+    out += [
         ("pattern-p*-is-rolled-once-its-batch-is-done", implies(g.ps.t < done, lift(st.fn(g.ps.t, z3.IntVal(0), g.ys.t, g.xs.t)) == so_rolled(g))),
         ("frame:tensor-and-fitted-origins-not-written", g.T.writes == 0 and g.of.writes == 0),
     ]
+    return out
 
 
 def so_after(s):
